@@ -159,10 +159,76 @@ def wide_mul_family(ctx):
                      'in every limb position + random; full and truncated product', sample=tasks[0])
 
 
+def _walk(task):
+    from fam import memcheck
+    try:
+        return memcheck.array_walk(**task)
+    except Exception:
+        from vlib.guard import guarded
+
+        def _re():
+            raise
+        return guarded(_re)
+
+
+def _runmulti(task):
+    from fam import simcheck
+    try:
+        return simcheck.compiled_run_multi(**task)
+    except Exception:
+        from vlib.guard import guarded
+
+        def _re():
+            raise
+        return guarded(_re)
+
+
+def memory_backends(ctx):
+    """hash-map / dict memory back ends: colliding addresses rewritten in every order; registered
+    write ports; CompiledSimulation.run with several steps per call"""
+    tasks = []
+    for sim in ('FastSimulation', 'CompiledSimulation'):
+        tasks.append(dict(simname=sim, aw=10, dw=5, pre=(), seed=ctx.seed, max_steps=500,
+                          addr_pool=[5, 261, 517, 773, 6, 262, 0, 256, 512, 1023, 767]))
+        tasks.append(dict(simname=sim, aw=9, dw=66, pre=(), seed=ctx.seed + 1, max_steps=300,
+                          addr_pool=[7, 263, 8, 264, 511, 255]))
+        tasks.append(dict(simname=sim, aw=3, dw=70, pre=(), seed=ctx.seed, max_steps=200, style='regports'))
+        tasks.append(dict(simname=sim, aw=2, dw=3, pre=(), seed=ctx.seed, max_steps=200, style='cond'))
+    res = passcheck.pmap(_walk, tasks)
+    for t, r in zip(tasks, res):
+        if r.get('crashed'):
+            ctx.crashes.append('C02.memory_backends: %s' % r['observed'][-300:])
+        elif r['failed']:
+            ctx.confirm_and_report('C02.memory_backends[%s aw=%d dw=%d %s]' % (t['simname'], t['aw'], t['dw'],
+                                                                              t.get('style', 'plain')),
+                                   'call', dict(module='fam.memcheck', func='array_walk', kwargs=t),
+                                   canonical_input=dict(sim=t['simname'], aw=t['aw'], dw=t['dw']),
+                                   function='pyrtl.%s' % t['simname'],
+                                   text='memory back end differs from the array model')
+    rt = [dict(nsteps=n, seed=ctx.seed + n) for n in (2, 5, 9)]
+    rres = passcheck.pmap(_runmulti, rt)
+    for t, r in zip(rt, rres):
+        if r.get('crashed'):
+            ctx.crashes.append('C02.run_multi: %s' % r['observed'][-300:])
+        elif r['failed']:
+            ctx.confirm_and_report('C02.compiled_run_multi[nsteps=%d]' % t['nsteps'], 'call',
+                                   dict(module='fam.simcheck', func='compiled_run_multi', kwargs=t),
+                                   canonical_input=dict(nsteps=t['nsteps']),
+                                   function='pyrtl.compilesim.CompiledSimulation.run',
+                                   text='run() over several steps records a different trace than stepping')
+    ctx.family('C02.memory_backends_and_run', 'B', instances=len(tasks) + len(rt),
+               evaluations=sum(r.get('steps', 0) for r in res) + sum(t['nsteps'] for t in rt),
+               nontrivial=len(tasks) + len(rt),
+               bound='array walks with addresses colliding mod 256 (rewritten in every order), registered and '
+                     'conditional write ports; CompiledSimulation.run with 2/5/9 steps per call, 70-bit input',
+               sample=tasks[0])
+
+
 def run(ctx):
     fastsim_emitters(ctx)
     cnet_family(ctx)
     wide_mul_family(ctx)
+    memory_backends(ctx)
     base = designs.family(ctx.tier, ctx.seed)
     wide = designs.wide_family(ctx.tier)
     reps = 3 if ctx.tier == 'quick' else 6
